@@ -242,9 +242,31 @@ fn exec(sc: &Scenario) -> Report {
                             vis.set_message("STALE");
                             hid.force_draw();
                             vis.force_draw();
+                            // (in half of the runs the sibling above was finished visibly before)
+                            if sc.c("switch_at") % 2 == 1 {
+                                if let Some(s) = &sibling {
+                                    s.finish();
+                                }
+                            }
                             if let Some(mp) = &mp_keep {
                                 mp.set_draw_target(ProgressDrawTarget::hidden());
                             }
+                        });
+                        // ... and its last handle goes away right after the MultiProgress was hidden
+                        if sc.c("switch_at") % 2 == 1 && sc.seed % 3 != 0 {
+                            let sb = sibling.take();
+                            let before = spy.n_all();
+                            if let Err(p) = call(|| drop(sb)) {
+                                r.violate("C06.no_panic", format!("op#{i}: dropping a finished member of a MultiProgress that was hidden meanwhile panicked: {p}"));
+                                break;
+                            }
+                            if spy.n_all() != before {
+                                r.violate("C06.silence", format!("op#{i}: dropping a member of a hidden MultiProgress made {} terminal calls", spy.n_all() - before));
+                                break;
+                            }
+                            r.probe("finished_sibling_dropped_after_hiding");
+                        }
+                        let _ = call(|| {
                             hid.set_message("fresh");
                             vis.set_message("fresh");
                         });
@@ -422,11 +444,20 @@ fn exec(sc: &Scenario) -> Report {
         r.probe_n("visible_twin_frames", vterm.flushes());
         r.nontrivial = ops.len() >= 3 && vterm.flushes() >= 1;
         let _ = vterm.width();
-        drop(hid);
-        drop(vis);
-        drop(sibling);
-        drop(mp_hidden2);
-        drop(mp_keep);
+        // (after a reported panic the locks may be poisoned: the teardown must not turn the
+        // violation into a harness error)
+        let td = call(|| {
+            drop(hid);
+            drop(vis);
+            drop(sibling);
+            drop(mp_hidden2);
+            drop(mp_keep);
+        });
+        if let Err(p) = td {
+            if r.violation.is_none() {
+                r.violate("C06.no_panic", format!("dropping the bars panicked: {p}"));
+            }
+        }
         if let Some(p) = file_path {
             let len = std::fs::metadata(&p).map(|m| m.len()).unwrap_or(0);
             let _ = std::fs::remove_file(&p);
